@@ -92,7 +92,7 @@ class RefParty:
         return ikecrypto.sk_open(data, *self.peer_dir())
 
     # ------------------------------------------------------------------ responder role
-    def respond_init(self, request, prefer=None, notify_only=None):
+    def respond_init(self, request, prefer=None, notify_only=None, force_transforms=None, force_proto=1, force_suite=None):
         """IKE_SA_INIT response to `request` (bytes). Returns response bytes."""
         self.is_initiator = False
         m = codec.decode(request, strict_bodies=False)
@@ -100,20 +100,22 @@ class RefParty:
         ke = next(p for p in m['payloads'] if p['type'] == codec.KE)
         no = next(p for p in m['payloads'] if p['type'] == codec.NONCE)
         pr, chosen = pick_suite(sa['proposals'], prefer)
-        self.suite = ikecrypto.suite_of([(t['type'], t['id'], t['keylen']) for t in chosen])
+        self.suite = ikecrypto.suite_of([(t['type'], t['id'], t['keylen']) for t in (force_suite or force_transforms or chosen)])
+        if force_transforms is not None:
+            chosen = force_transforms           # what is put on the wire (the keys still follow force_suite / the honest choice)
         self.spi_i, self.spi_r = m['spi_i'], self.spi
         self.ni, self.nr = no['data'], self.nonce
         self.init_req = bytes(request)
         pub = self._new_dh(ke['group'])
         res = {'spi_i': self.spi_i, 'spi_r': self.spi_r, 'major': 2, 'minor': 0, 'exch': 34, 'flags': 0x20, 'mid': 0, 'payloads': [
-            {'type': codec.SA, 'critical': False, 'proposals': [{'num': pr['num'], 'proto': 1, 'spi': b'', 'transforms': chosen}]},
+            {'type': codec.SA, 'critical': False, 'proposals': [{'num': pr['num'], 'proto': force_proto, 'spi': b'', 'transforms': chosen}]},
             {'type': codec.NONCE, 'critical': False, 'data': self.nr},
             {'type': codec.KE, 'critical': False, 'group': ke['group'], 'data': pub}]}
         self.init_res = codec.encode_clear(res)
         self._derive(ke['data'])
         return self.init_res
 
-    def respond_auth(self, request, idtype, iddata, auth_method, auth_data, mode_transport=None):
+    def respond_auth(self, request, idtype, iddata, auth_method, auth_data, mode_transport=None, force_child=None, force_child_proto=None, force_ts=None):
         """IKE_AUTH response echoing the child offer; AUTH payload is whatever the caller supplies."""
         hdr, inner, info = self.open(request)
         self.auth_req_inner = inner
@@ -122,6 +124,12 @@ class RefParty:
         tsr = next(p for p in inner if p['type'] == codec.TSR)
         transport = any(p['type'] == codec.NOTIFY and p.get('ntype') == 16391 for p in inner)
         pr, chosen = pick_suite(sa['proposals'])
+        if force_child is not None:
+            chosen = force_child
+        if force_child_proto is not None:
+            pr = dict(pr, proto=force_child_proto)
+        if force_ts is not None:
+            tsi, tsr = {'selectors': [force_ts[0]]}, {'selectors': [force_ts[1]]}
         pls = [{'type': codec.IDR, 'critical': False, 'idtype': idtype, 'data': iddata},
                {'type': codec.AUTH, 'critical': False, 'method': auth_method, 'data': auth_data},
                {'type': codec.SA, 'critical': False, 'proposals': [{'num': pr['num'], 'proto': pr['proto'], 'spi': self.child_spi, 'transforms': chosen}]},
